@@ -263,7 +263,8 @@ class TextFileStorage(Storage[str]):
         """
 
         with self._storage_lock:
-            for i in range(len(self)):
+            # the identifiers may have gaps, so the highest identifier could be bigger than the number of stored data
+            for i in range(len(self._index)):
                 try:
                     yield self[i]
                 except IndexError:
